@@ -355,3 +355,36 @@ Proof.
   intros hist W. destruct (refine_fixed true hist W) as [d [H [A _]]]. exists d. split; [exact H|].
   intros t ls i ok Hg Hin. apply A. eapply replay_checked; eauto. left. reflexivity.
 Qed.
+
+(* ------------------------------------------------------------------ Scheduler._perform_rollbacks *)
+Lemma ref_rbs : forall hs l,
+  E (ref_from l (map Rb hs)) = E l /\
+  forall s, V (ref_from l (map Rb hs)) s -> V l s /\ forall h, In h hs -> ~ tc (E l) (oid h) s.
+Proof.
+  induction hs as [|h hs IH]; intros l; simpl.
+  - split; [reflexivity|]. intros s H. split; [exact H | intros h []].
+  - destruct (IH (lin_step l (Rb h))) as [HE HV]. split; [exact HE|].
+    intros s H. apply HV in H. simpl in H. destruct H as [[A B] C]. split; [exact A|].
+    intros h' [<-|Hin]; [exact B | apply C; exact Hin].
+Qed.
+
+(** A job that is about to execute rolls back to every Handle state among its arguments: afterwards
+    every state derived from any of them is invalid (repaired query, code as it is: every Handle). *)
+Theorem perform_rollbacks_all : forall cse hist hs, Forall wf_op hist ->
+  exists d0 d, run (std_cfg false cse) hist = Done d0 /\
+               perform_rollbacks (std_cfg false cse) hs d0 = Done d /\
+               forall h s, In h hs -> tc (E (ref hist)) (oid h) s -> is_valid_handle d s = false.
+Proof.
+  intros cse hist hs W.
+  destruct (refine_fixed cse hist W) as [d0 [H0 _]].
+  destruct (refine_fixed cse (hist ++ map Rb hs)) as [d [H [A _]]].
+  { apply Forall_app. split; [exact W|]. apply Forall_forall. intros o Ho. apply in_map_iff in Ho.
+    destruct Ho as [h [<- _]]. exact I. }
+  exists d0, d. split; [exact H0|]. split.
+  - unfold perform_rollbacks, arg_rollbacks. cbn [std_cfg rb_first_per_name].
+    unfold run in H, H0. rewrite run_from_app, H0 in H. exact H.
+  - intros h s Hin T. destruct (is_valid_handle d s) eqn:K; [|reflexivity].
+    apply A in K. unfold ref, ref_from in K. rewrite fold_left_app in K.
+    apply (proj2 (ref_rbs hs (fold_left lin_step hist lin0))) in K. destruct K as [_ K].
+    exfalso. exact (K h Hin T).
+Qed.
